@@ -255,6 +255,14 @@ def r13_play(ctx):
             if types != want_types:
                 ok_all = False
                 why = why or f'play yields {types}, expected {want_types}'
+            # play() yields the messages iteration yields: each with the time iteration gives it (the seconds since the previous
+            # event of the file, yielded or not) - what is filtered out is not added to its neighbour
+            want_times = [d1, d2, Poly.const(0)] if meta_on else [d1]
+            got_times = [x.attrs.get('time') for x in vals if isinstance(x, AObj)]
+            if len(got_times) == len(want_times) and not all((isinstance(g, Poly) and g.close_to(wt)) or (not isinstance(g, Poly) and wt.close_to(Poly.const(g if isinstance(g, (int, float)) else 1e99)))
+                                                            for g, wt in zip(got_times, want_times)):
+                ok_all = False
+                why = why or f'the yielded messages carry the times {got_times}; iteration gives them {want_times}'
             # the yield of the note comes after its sleep decision: position of first sleep (if any with exp1) before first yield from play
             idx_y = next((i for i, e in enumerate(log) if e[0] == 'yield' and isinstance(e[1], AObj) and e[1].attrs.get('type') == 'note_on'
                           and i > next((j for j, x in enumerate(log) if x[0] == 'now' and x[1] == 1), 0)), None)
@@ -278,6 +286,27 @@ def r13_play(ctx):
                 ok_all = False
                 why = f'no execution waits for the scheduled time of {what}: it is handed out (or passed over) the moment its predecessor was - before its time'
         ctx.require(ok_all, 'R13.4', inst, w, why, construct=cons + f'::schedule(meta={meta_on}{", zero clock" if zero else ""})')
+    # a note behind a meta message that is filtered out: the note is yielded with its own time, as iteration gives it - the time
+    # of the message that was passed over is not added to it (message equality includes the time)
+    def thunk_f():
+        clock['n'] = 0
+        clock['zero'] = False
+        mk = wire.make_meta(ai, ctx, 'marker', {'text': 'x'}, P('t1'))
+        nt = wire.make_message(ctx, 'note_on', {'channel': 0, 'note': 1, 'velocity': 64}, None)
+        nt.attrs['time'] = P('t2')
+        mf = _file(ctx, ai, 1, AList([AList([mk, nt], 'MidiTrack')], 'list'), B)
+        return ai.call_function(play, [mf], {'now': ExtRef('test.now')})
+    outs = ai.explore(thunk_f, limit=64)
+    ok = bool(outs) and all(o_.kind == 'return' for o_ in outs)
+    why = f'{outs}'
+    if ok:
+        for oc in outs:
+            vals = oc.value.items if isinstance(oc.value, AList) else []
+            times = [x.attrs.get('time') for x in vals if isinstance(x, AObj)]
+            if len(times) != 1 or not (isinstance(times[0], Poly) and times[0].close_to(d2)):
+                ok = False
+                why = f'play() of [marker after t1 ticks, note_on after t2 more] yields messages with the times {times}; the note carries {d2!r} in iteration'
+    ctx.require(ok, 'R13.4', 'play(): the time of a message behind a filtered meta message', w, why, construct=f'{play.qname}::yielded-time')
     for q in ai.inlined:
         ctx.functions.add(q)
 
